@@ -71,6 +71,20 @@ def run(cfg):
         try: os.kill(p, signal.SIGKILL)
         except OSError: pass
     os._exit(0)
+def failing_config(cfg):
+    # makegateway fails in its chdir/nice/env step (after the process exists): terminate() must still reap that process
+    g = execnet.Group()
+    before = set(children())
+    errs = []
+    for spec in ("popen//chdir=/nonexistent-dir-for-c05/a/b", "popen//nice=high"):
+        try: g.makegateway(spec); errs.append(None)
+        except BaseException as e: errs.append(type(e).__name__)
+    new = [p for p in children() if p not in before]
+    g.terminate(1.0); time.sleep(0.3)
+    left = [p for p in new if alive(p)]
+    print(json.dumps({"err": errs, "left": left, "len": len(g)}), flush=True)
+    for p in left: os.kill(p, signal.SIGKILL)
+    os._exit(0)
 def dup_id(cfg):
     g = execnet.Group(); g.makegateway("popen//id=dup")
     before = set(children())
@@ -84,7 +98,7 @@ def dup_id(cfg):
     os._exit(0)
 cfg = json.loads(sys.argv[1])
 try:
-    (dup_id if cfg.get("kind") == "dup" else run)(cfg)
+    (dup_id if cfg.get("kind") == "dup" else failing_config if cfg.get("kind") == "failcfg" else run)(cfg)
 except BaseException as e:
     import traceback
     print(json.dumps({"error": "driver: %s: %s | %s" % (type(e).__name__, e, traceback.format_exc()[-300:])}), flush=True)
@@ -126,6 +140,7 @@ cases.append(("exit-then-terminate-stopped", {"members": [["popen", "idle", "STO
 cases.append(("exit-then-terminate-idle", {"members": [["popen", "idle", None], ["popen", "sigign", None]], "timeout": 1.0, "exit_first": True}))
 cases.append(("via-exit-then-terminate", {"members": [["via", "idle", None]], "timeout": 1.0, "exit_via_first": True}))
 cases.append(("dup-id", {"kind": "dup"}))
+cases.append(("failing-config", {"kind": "failcfg"}))
 if MODE == "thorough":
     cases.append(("five-popen-sigign", {"members": [["popen", "sigign", None]] * 5, "timeout": 1.0}))
     cases.append(("gevent-sleep", {"members": [["popen", "sleep", None]], "timeout": 1.0, "model": "gevent"}))
@@ -146,6 +161,10 @@ for name, cfg in cases:
         continue
     if r.get("error"):
         bad.append(f"{name}: scenario error {r['error']}")
+        continue
+    if cfg.get("kind") == "failcfg":
+        if r["left"]:
+            bad.append(f"{name}: makegateway failed in its chdir/nice step ({r['err']}) and left child {r['left']} alive after terminate")
         continue
     if cfg.get("kind") == "dup":
         if r["left"]:
